@@ -61,6 +61,15 @@ def positionalPrefixBad (env : Env) (f : Fn) (t : Truth) (args : List Val) (kw :
   ((f.plain.take pos.length).all fun p => p.dflt.isNone && (lookup kw p.name).isNone) &&
   (pos.zip f.plain).any (fun vp => match vp.2.ann with | some a => !conforms env a vp.1 | none => false)
 
+/-- C03, `*args` clause by Python's own binding: the positional values left over after the implicit receiver and the declared
+    positional parameters are the elements of `*args`; one of them does not conform to its annotation -/
+def starValues (f : Fn) (t : Truth) (args : List Val) : List Val :=
+  (args.drop t.implicit).drop (f.plain.filter fun p => p.kind == .posOnly || p.kind == .posOrKw).length
+def badStarSpec (env : Env) (f : Fn) (t : Truth) (args : List Val) : Bool :=
+  match f.star with
+  | some p => (match p.ann with | some a => (starValues f t args).any (fun v => !conforms env a v) | none => false)
+  | none => false
+
 /-- C03: the produced value does not conform to the return annotation -/
 def badProduced (env : Env) (f : Fn) (body : BodyOut) : Bool :=
   match body, f.retAnn with
